@@ -19,6 +19,7 @@ RULE = (
     "tasks (and flag off or no automatic task), both runs ending FINISHED_SUCCESS: "
     "dump(simulate(absence=L); remove_absence_time_list()) == dump(simulate(absence=[])), all logs of all objects, "
     "Relation B is also evaluated for backward_simulate (one model in four): its mirrored result and mirrored absence list, after remove_absence_time_list(), must equal the backward run without absence. One spec in three has lived before (warm start): another model edited in place into this one or swapped into the old project object, or the model's own run cut short by max_time and then continued with one of the unequal initialize-flag combinations (state carried over and logs restarted, or state reset and logs appended), or a first run that does not initialize the logs. "
+    'Part A also observes the inner run of backward_simulate (one cold-started model in four; half of an automatic-task-rich profile). '
     "time, costs, status. Non-trivial = an absence step strictly inside the run at which some task was live "
     "WORKING (A), or such a model on which relation B was evaluated; distinct by canonical spec hash."
 )
@@ -62,15 +63,39 @@ def _spec_b(draw, cfg):
 CFG_A_WARM = CFG_A.copy(warm=1, abs_p=1, min_comps=1, min_wps=1, float_mode=0)
 
 
+@st.composite
+def _spec_a(draw, cfg):
+    """Part A; one cold-started model in four is observed inside backward_simulate (same options, same clauses)."""
+    spec = draw(gen.model_spec(cfg))
+    if not spec.get("warm") and draw(st.integers(0, 3)) == 0:
+        spec["backward"] = True
+    return spec
+
+
+# many automatic tasks, absence steps early in the run, no warm start: half of these are observed inside backward_simulate
+CFG_A_AUTO = CFG_A.copy(p_auto=2, abs_max=8, warm=0, float_mode=0)
+
+
+@st.composite
+def _spec_a_auto(draw, cfg):
+    spec = draw(gen.model_spec(cfg))
+    if not spec["opts"]["abs"]:
+        spec["opts"]["abs"] = draw(st.lists(st.integers(0, 8), unique=True, min_size=1, max_size=4))
+    if draw(st.booleans()):
+        spec["backward"] = True
+    return spec
+
+
 def strategy(tier):
     if tier == "quick":
-        return st.one_of(gen.model_spec(CFG_A), gen.model_spec(CFG_A), _spec_b(CFG_B), _spec_b(CFG_B), gen.model_spec(CFG_A_WARM))
+        return st.one_of(_spec_a(CFG_A), _spec_a(CFG_A), _spec_b(CFG_B), _spec_b(CFG_B), gen.model_spec(CFG_A_WARM), _spec_a_auto(CFG_A_AUTO))
     return st.one_of(
-        gen.model_spec(CFG_A.copy(max_tasks=12, max_workers=8)),
-        gen.model_spec(CFG_A.copy(max_tasks=12, max_workers=8)),
+        _spec_a(CFG_A.copy(max_tasks=12, max_workers=8)),
+        _spec_a(CFG_A.copy(max_tasks=12, max_workers=8)),
         _spec_b(CFG_B.copy(max_tasks=12, max_workers=8)),
         _spec_b(CFG_B.copy(max_tasks=12, max_workers=8)),
         gen.model_spec(CFG_A_WARM.copy(max_tasks=12, max_workers=8)),
+        _spec_a_auto(CFG_A_AUTO.copy(max_tasks=12, max_workers=8)),
     )
 
 
@@ -93,6 +118,7 @@ def relation_b_applicable(spec):
 def check(spec):
     res = Result()
     sim = simcheck.Sim(spec)
+    res.cls("part_A_backward_run", sim.backward)
     working_inside, indiv = simcheck.check_c10a(sim, res)
     res.nontrivial = working_inside or indiv
     if relation_b_applicable(spec):
